@@ -284,6 +284,17 @@ fn explore(ctx: &mut Ctx) {
         }
     }
     ctx.exhaustive_part("all strings up to 3-4 chars over 13 encoding-boundary scalars (U+0000, 7F, 80, 7FF, 800, FFF, 1000, D7FF, E000, FFFF, 10000, 10FFFF, 'a') x {empty delimiter, 5 delimiters as &str and as char}");
+    // chars whose encodings differ in exactly one byte position, as text and as delimiter
+    for (set, strs) in gen::one_byte_partner_strings(ctx.by_tier(3, 4)) {
+        for s in &strs {
+            for c in &set {
+                eval(ctx, Case { s: s.clone(), delim: c.to_string(), as_char: false, hist: None });
+                eval(ctx, Case { s: s.clone(), delim: c.to_string(), as_char: true, hist: None });
+                eval(ctx, Case { s: s.clone(), delim: c.to_string(), as_char: true, hist: Some(0b0110) });
+            }
+        }
+    }
+    ctx.exhaustive_part("one-byte partners: strings of <= 3-4 chars over {c, one partner per byte position, 'a'} for c in {é, 个, 😀} x every member as &str and char delimiter");
     // lead-byte sweep: empty delimiter (char by char), the char itself and an ASCII char as delimiter
     for s in gen::lead_byte_strings() {
         eval(ctx, Case { s: s.clone(), delim: String::new(), as_char: false, hist: None });
